@@ -112,7 +112,8 @@ pub fn rclaims(r: &mut StdRng, o: &TreeOpts, now: u64) -> Value {
     }
     m.insert("iss".into(), json!(["https://issuer.example", "https://issuer.example/", "i1", "\u{e9}metteur", "i1//"][r.gen_range(0..5)]));
     if r.gen_bool(0.5) {
-        m.insert("iat".into(), json!(now - r.gen_range(0..100000)));
+        // (an issuer whose clock is ahead, or a post-dated credential: iat is not part of the validity window)
+        m.insert("iat".into(), if r.gen_bool(0.25) { json!(now + r.gen_range(10..100000)) } else { json!(now - r.gen_range(0..100000)) });
     }
     if let Value::Object(t) = loop {
         let t = rtree(r, o, o.depth);
